@@ -39,7 +39,7 @@ def floors(tier):
     return {"compared": 30000, "accepted": 8000, "rejected": 8000, "mutated_depth2plus": 1000,
             "metaschemas_self_accepted": 4, "keyword_shape_cells": 3000, "calibration_cases": 2000,
             "dialects_registered": 4, "checked_after_dialect_registration": 400,
-            "respelled_duplicates_in_unique_arrays": 500}
+            "respelled_duplicates_in_unique_arrays": 500, "format_only_objections": 50}
 
 
 def load_metaschemas():
@@ -190,6 +190,18 @@ def run(ctx):
             idx += 1
             if ctx.mine(idx):
                 compare(ctx, O, d, shape)
+    # strings that only the metaschema's `format` annotations (regex, uri, uri-reference) could object to: check_schema
+    # passes no format checker, so they are accepted like any other string
+    from vf.props.c12 import BAD_REGEXES
+    for d in impl.DRAFTS:
+        for bad in BAD_REGEXES + ["::not a uri::", "a b", "%zz"]:
+            idx += 1
+            if not ctx.mine(idx):
+                continue
+            ctx.count("format_only_objections")
+            for cand in ({"pattern": bad}, {"patternProperties": {bad: {}}}, {"properties": {"a": {"pattern": bad}}},
+                         {"$schema": bad}, {impl.IDKW[d]: bad}, {"items": [{"$ref": bad}]}):
+                compare(ctx, O, d, cand, tag="(only a `format` in the metaschema could object)")
     rng = ctx.rng
     dialect_phase(ctx, random.Random(1111))
     for i in range(ctx.scale(1500, 25000)):
